@@ -826,7 +826,12 @@ func (m *Machine) strSlice(s *SymStr, lo, hi int64, in ssa.Instruction) value {
 }
 
 func (m *Machine) symStrToSlice(s *SymStr, bytes bool, in ssa.Instruction) value {
-	return m.liftStr([]value{s}, func(v []value) value { return stringToSlice(v[0].(string), bytes) })
+	r := m.liftStr([]value{s}, func(v []value) value { return stringToSlice(v[0].(string), bytes) })
+	if sl, ok := r.(SliceV); ok {
+		sl.src, sl.srcBytes, sl.srcLo = s, bytes, 0
+		return sl
+	}
+	return r
 }
 
 // ---------- Sprintf model ----------
